@@ -1,4 +1,4 @@
-(* Extraction of the fault model of C08: the sync loop with writer outcomes (FaultModel.sync_loop_w) and one scrub stripe. *)
+(* Extraction of the fault model of C08 (and of the effect trace of C07, request `trace`): the sync loop with writer outcomes (FaultModel.sync_loop_w) and one scrub stripe. *)
 Require Import ExtrOcamlBasic.
 From Coq Require Import NArith ZArith List.
 From Snap.Array Require Import ArrayDefs SyncModel.
@@ -6,4 +6,4 @@ From Snap.Fault Require Import FaultModel.
 Extraction Language OCaml.
 Set Extraction Optimize.
 Extraction "../ocaml/C08/c08_ext.ml" ArrayDefs.slot_at SyncModel.sync_loop SyncModel.save_normalise SyncModel.clear_past
-  FaultModel.sync_loop_w FaultModel.recorded_healthy FaultModel.scrub_stripe.
+  FaultModel.sync_loop_w FaultModel.recorded_healthy FaultModel.scrub_stripe FaultModel.sync_trace.
